@@ -17,10 +17,29 @@ Tie        : correspondence `gc_faults`: tables with 1-4 retained snapshots (sha
              variants, several Avro blocks; plus the STREAM of each list / manifest failing part-way (connection reset,
              short read) at spread / block-boundary offsets.  What a damaged file or faulty stream amounts to (records
              decoded before the failure, exception class) is decided by an independent record-by-record decode; the model
-             gets the content class CPartialAvro (decoded, caught) resp. the fault FRaise / FRaiseX, real vs model.  The pointer plane (version hint, metadata JSON)
-             is outside the model: faults at every call of refresh() / the hint check and damage of the current metadata
-             file {missing, garbage, empty, truncated} are judged by the oracle only; a stale hint is recorded, not judged.
+             gets the content class CPartialAvro (decoded, caught) resp. the fault FRaise / FRaiseX, real vs model.  The pointer plane: which
+             version a collection works from is Model/GCPointer.v; BYTE damage of the current metadata file {missing, garbage,
+             empty, truncated} and faults at every call of refresh() / the hint check are judged by the oracle only (what
+             json.loads makes of bytes is not modelled); what the decoder makes of the DOCUMENT is Model/Doc.v / GCDoc.v (below);
+             a stale hint is recorded, not judged.
              Every library call runs under a time limit (SIGALRM) and a worker memory limit: a hang is a `hang:` violation.
+Documents  : STRUCTURED damage (harness/lib/docdamage.py): the file stays well-formed JSON / a valid Avro container, but a key is
+             dropped, null, of another JSON type (an empty and a non-empty representative of every other type: 0, 7, false, true,
+             "", "x", [], [1], {}, {"a": 1}) or a value is emptied in place -- at EVERY key path (first / last array element) of
+             the current metadata file, of reachable Avro manifest lists / manifests (schema and records changed together; null in
+             all records or only the last) and of the same files in the legacy JSON format (fifth table variant).  The readers'
+             demands on these documents are REGENERATED from the source (translator/gen_doc.py -> Gen/GenDoc.v: the shapes of
+             _dict_to_metadata and of the record loops / JSON fallbacks of read_manifest(_list)_file as terms of Model/Doc.v) and
+             Model/GCDoc.v puts the collector on top: C07_metadata_document_fail_closed (every document: refused = nothing
+             deleted, or the collection worked from the manifest lists of ALL its snapshots and is safe for them),
+             C07_lost_section_refused (snapshots section missing / null / not a list / a snapshot without a string manifest
+             list is never "a table without snapshots"), C07_readable_records_complete, C07_structured_damage_aborts.
+             Tie: `doc_decode` (the regenerated shape vs the library's own decoder on every damaged metadata document: refused,
+             or the same manifest lists), `doc_runs` (every structured-damage run vs collect_doc / gc_run with the document's
+             content class: raise with nothing deleted and abort phase, or deleted set, keep sets, call trace).
+             Oracle (property text): the collection raises -- any exception -- having deleted nothing, or every reachable and live
+             file is still in its keep sets.  Emptied in place (same type; zero records) = a well-formed document that says
+             something else: recorded, not judged; likewise a legacy JSON document without its `manifests` / `files` section.
 Oracle /   : implementation only (independent reader): an unparseable reachable file / failing stream -> the collection
 search       raises, or its keep sets (observed at _gc_prefix) still hold every reachable and live file; damage that still
              parses to different records is recorded, not judged; whenever collect raised -> GarbageCollectionAborted and the
@@ -38,31 +57,47 @@ import time
 import traceback
 from typing import Any, Dict, List, Optional, Tuple
 
-from harness.lib import coqbuild, gcsim
+from harness.lib import coqbuild, docdamage, gcsim
 from harness.props import c05 as h5
 
 LEVEL = "proof"
-THEOREMS = ["C07_fail_closed", "C07_damage", "C07_transient", "C07_partial_decode", "C07_pointer_consistent", "C07_pointer_raise_aborts", "C07_marker_keep"]
+THEOREMS = ["C07_fail_closed", "C07_damage", "C07_transient", "C07_partial_decode", "C07_pointer_consistent", "C07_pointer_raise_aborts", "C07_marker_keep",
+            "C07_metadata_document_fail_closed", "C07_lost_section_refused", "C07_readable_records_complete", "C07_structured_damage_aborts",
+            "C07_list_record_without_path_refused"]
 REQ = gcsim.REQ
 TIMEOUT_MS = h5.TIMEOUT_MS
 
 MANIFEST_ENTRY = {
-    "level_text": "C07_fail_closed (every fault oracle: an abort raised while reachability / in-flight protection is established deletes "
+    "level_text": "C07_metadata_document_fail_closed / C07_lost_section_refused / C07_readable_records_complete / "
+                  "C07_structured_damage_aborts (every metadata document, every list of decoded list / manifest records: a document "
+                  "that lost a section, a key or a string the reachable set is computed from is refused -- raise, nothing deleted -- "
+                  "and a collection that runs worked from ALL the snapshots / entries the document carries) proved over the readers' "
+                  "demands REGENERATED from _dict_to_metadata / read_manifest(_list)_file (Gen/GenDoc.v), tied by running every "
+                  "structured damage (drop / null / retype / empty at every key path of the metadata JSON, of Avro and legacy-JSON "
+                  "lists and manifests) through the library and the model; "
+                  "C07_fail_closed (every fault oracle: an abort raised while reachability / in-flight protection is established deletes "
                   "nothing; otherwise only unreferenced, unprotected, old files are deleted), C07_damage (missing or unparseable reachable "
                   "list / manifest aborts before the first sweep, under any additional faults), C07_transient (a run that reaches the sweeps "
                   "read every list and manifest without an effective fault) and C07_marker_keep proved in Coq over the call-by-call collector "
                   "model with regenerated path kernel, for both orders of the two preparatory phases (regenerated MARKERS_FIRST); the model's "
                   "fault handling is tied to the code by injecting a fault at every storage call of real collections (4 fault kinds; thorough: "
                   "pairs) and every damage class on every reachable metadata-plane file, comparing abort phase, deleted set and call trace",
-    "level_note": "trusted: Coq kernel; translator/gen_norm.py (incl. the pinned try/except skeleton); wf_store; the pointer plane "
-                  "(metadata_manager.refresh(), collect()'s check that the hinted metadata file exists) is outside the model: faults and "
-                  "damage there are judged by the implementation-only oracle (any exception, nothing deleted); byte damage that still "
+    "level_note": "trusted: Coq kernel; translator/gen_norm.py (incl. the pinned try/except skeleton) and translator/gen_doc.py (reader "
+                  "shapes; fail closed on any use of the document outside its subset, e.g. a helper that defaults a missing section); "
+                  "wf_store; Schema.__post_init__ and the int()-keyed statistics maps are external validations (parameter `ext`, "
+                  "measured per document); json.loads / fastavro decoding themselves are not modelled: faults and BYTE damage of the "
+                  "pointer plane (metadata_manager.refresh(), collect()'s re-read of the hinted file) are judged by the "
+                  "implementation-only oracle (any exception, nothing deleted); a value emptied in place (a list / object / string of "
+                  "the same type, an Avro container with zero records) leaves a well-formed document that says something else "
+                  "(a manifest list with zero records is an empty snapshot): recorded, not judged -- this includes `snapshots: []` "
+                  "under a dangling current_snapshot_id; byte damage that still "
                   "decodes to DIFFERENT records (e.g. a flipped path character) is undetectable without checksums: recorded, not judged, "
                   "not compared; a short read ending exactly on an Avro block boundary likewise; a stale hint naming an older "
                   "existing version is C10's finding and only recorded; an abort raised by a sweep's own listing may follow deletions of "
                   "true orphans (the property's second disjunct) -- stated and proved as such; damage that still parses (a JSON object "
                   "without 'manifests' / 'files' reads as an EMPTY manifest) is modelled, recorded and not judged; local backend only",
-    "technique": "Coq proof for all fault oracles + exhaustive single-fault injection at every storage call (differential)",
+    "technique": "Coq proof for all fault oracles and all documents + reader shapes regenerated by the translator + exhaustive single-fault "
+                 "injection at every storage call and structured damage at every key path of every metadata-plane document (differential)",
     "design_ref": "DESIGN.md section 5 C07",
 }
 
@@ -118,6 +153,8 @@ def build_base(base: str, spec: Dict[str, Any]) -> Tuple[str, float]:
         leave_dead_writer(t, reader, root, spec["dead_writer"])
     if spec.get("multiblock"):
         reencode_multiblock(root, reader)
+    if spec.get("legacy_json"):
+        rewrite_legacy_json(root, reader)
     h5._plant(root, "data/orphan_a.parquet", b"PAR1 orphan")
     h5._plant(root, "metadata/manifests/orphan_m.avro", b"orphan manifest")
     if spec.get("live_tx", True):
@@ -185,6 +222,22 @@ def reencode_multiblock(root: str, reader: gcsim.IndepReader) -> None:
             f.write(bio.getvalue())
 
 
+def rewrite_legacy_json(root: str, reader: gcsim.IndepReader) -> None:
+    """Every reachable list / manifest in the legacy JSON format (what a table written by an old version looks like; the
+    readers accept it through their JSON fallback)."""
+    import fastavro
+    todo = []
+    for s in reader.snapshots():
+        lk, mks, _dks = reader.snapshot_files(s)
+        todo += [("list", lk)] + [("manifest", mk) for mk in mks]
+    for kind, key in dict((k, (kd, k)) for kd, k in todo).values():
+        full = os.path.join(root, key)
+        with open(full, "rb") as f:
+            recs = list(fastavro.reader(f))
+        with open(full, "wb") as f:
+            f.write(docdamage.to_legacy_json(kind, recs))
+
+
 def byte_damages(bs: bytes, thorough: bool, rng: random.Random, exhaustive: bool = True) -> List[Tuple[Any, ...]]:
     """Byte-level damage of an Avro container: single-byte flips and truncations, spread over the whole file and aimed at
     the structure (block counts / sizes, every sync marker, the last record)."""
@@ -245,9 +298,9 @@ def judge(spec_grace: int, now: float, reach: set, live: set, markers_before: Di
         cls = "reachable" if set(lost) & reach else "live-protected"
         viol.append({"key": f"deleted-{cls}:{what}", "what": f"{what}: collection deleted {cls} file(s) {lost[:3]} (raised={real['raised']} {real.get('exc_type')})"})
     if real["raised"]:
-        if fault_pos != "refresh" and not real.get("aborted_type_ok"):
+        if fault_pos not in ("refresh", "doc") and not real.get("aborted_type_ok"):
             viol.append({"key": f"wrong-exception:{what}", "what": f"{what}: collection raised {real['exc_type']} instead of GarbageCollectionAborted: {real['exc']}"})
-        if fault_pos in ("refresh", "pre") and deleted:
+        if fault_pos in ("refresh", "pre", "doc") and deleted:
             viol.append({"key": f"abort-after-delete:{what}", "what": f"{what}: collection raised {real['exc_type']} but had already deleted {sorted(deleted)[:3]}"})
         if deleted - orphans:
             viol.append({"key": f"abort-deleted-non-orphan:{what}", "what": f"{what}: raised, and deleted files that are not old unreferenced orphans: {sorted(deleted - orphans)[:3]}"})
@@ -324,7 +377,8 @@ def run_table(spec: Dict[str, Any]) -> Dict[str, Any]:
                     t = load_table(dst)          # opened while intact; the damage happens before the collection
                     if damage is not None:
                         apply_damage(dst, *damage)
-                        store = gcsim.store_term(dst)
+                        if not isinstance(damage[1], dict):      # structured damage: the document goes to Model/Doc.v, not the store
+                            store = gcsim.store_term(dst)
                     before = gcsim.list_tree(dst)
                     real = gcsim.run_collect(t, grace, now, plan)
                 after = gcsim.list_tree(dst)
@@ -391,7 +445,8 @@ def run_table(spec: Dict[str, Any]) -> Dict[str, Any]:
             out["stats"]["fault_runs"] += 1
         # ---- the stream of a reachable list / manifest misbehaves PART-WAY (connection reset, short read): what that amounts to
         #      is decided by decoding the same faulty stream independently (fastavro only)
-        for role, ordinal, key in targets:
+        avro_targets = [] if spec.get("legacy_json") else targets        # byte positions / "still parses" are decided by an Avro decode
+        for role, ordinal, key in avro_targets:
             bs = open(os.path.join(root, key), "rb").read()
             orig = gcsim.avro_probe(gcsim.as_file(bs))
             for mode in ("raise", "eof"):
@@ -438,7 +493,7 @@ def run_table(spec: Dict[str, Any]) -> Dict[str, Any]:
                 out["stats"]["damage_runs"] += 1
         # ---- byte-level damage anywhere in the file: single-byte flips and truncations (header, block framing, EVERY record,
         #      every sync marker).  Whether the damaged bytes still parse is decided by an independent full decode.
-        for role, ordinal, key in targets:
+        for role, ordinal, key in avro_targets:
             bs = open(os.path.join(root, key), "rb").read()
             orig = gcsim.avro_probe(gcsim.as_file(bs))
             seen_effect = set()
@@ -493,10 +548,90 @@ def run_table(spec: Dict[str, Any]) -> Dict[str, Any]:
             r["store"], r["pointer_plane"], r["not_judged"], r["violations"] = None, True, True, []
             out["stats"]["stale_hint_completed_deleting"] = len(set(r["before"]) - set(r["after"])) if not r["real"]["raised"] else -1
             out["runs"].append(r)
+        # ---- STRUCTURED damage of the documents (harness/lib/docdamage.py): the file is still good JSON / a good Avro container,
+        #      but a key is gone, null, of another type, or a list is emptied -- at every key path of the current metadata file
+        #      and of reachable lists / manifests.  Judged by the property's text: the collection raises (any exception) having
+        #      deleted nothing, or every reachable and live file is still in its keep sets and on storage.  A value emptied in
+        #      place (same type) leaves a well-formed document that says something else: recorded, not judged.
+        import json
+        full_ops = (thorough and bool(spec.get("exhaustive", True))) or only is not None
+
+        def doc_run(key: str, fmt: str, role: str, ordinal: int, op: Dict[str, Any], size: str) -> None:
+            desc = {"type": "doc", "target": [role, ordinal], "op": op}
+            if not wanted(desc):
+                return
+            lab, pl = docdamage.op_label(op), docdamage.path_label(op["path"])
+            what = f"doc:{lab}:{role}:{pl}"
+            r = one(None, (key, dict(op, doc=fmt)), "doc", what, desc)
+            r["store"], r["no_model"], r["doc"] = None, True, {"fmt": fmt, "role": role, "op": op, "key": key}
+            try:
+                r["doc"]["model"] = doc_model_inputs(fmt, role, doc_damaged_bytes(open(os.path.join(root, key), "rb").read(), dict(op, doc=fmt)))
+            except Exception as e:  # noqa: BLE001 - reported by the correspondence as a case without a model
+                r["doc"]["model_error"] = f"{type(e).__name__}: {e}"[:200]
+            out["stats"]["doc_damage_runs"] = out["stats"].get("doc_damage_runs", 0) + 1
+            gone = sorted((set(r["before"]) - set(r["after"])) & (reach | live))
+            legacy_section = (fmt == "json" and role != "current-metadata" and len(op["path"]) == 1
+                              and (op["op"] == "drop" or (op["op"] == "retype" and op["value"] in ("", {}))))
+            if legacy_section:
+                # the legacy JSON fallback reads a document WITHOUT its `manifests` / `files` section (or with an empty object /
+                # string there) as an EMPTY list / manifest: the interpretation already recorded for `{}` (json-empty)
+                r["violations"], r["not_judged"] = [], True
+                out["stats"]["doc_legacy_json_section_lost_reads_empty_not_judged"] = out["stats"].get("doc_legacy_json_section_lost_reads_empty_not_judged", 0) + 1
+            elif op["op"] in ("empty", "zero-records"):
+                r["violations"], r["not_judged"] = [], True
+                out["stats"]["doc_emptied_in_place_not_judged"] = out["stats"].get("doc_emptied_in_place_not_judged", 0) + 1
+                if gone:
+                    out["stats"]["doc_emptied_in_place_deleted_reachable"] = out["stats"].get("doc_emptied_in_place_deleted_reachable", 0) + 1
+            elif not r["real"]["raised"] and not protection_kept(r["real"], reach, live):
+                r["violations"].append({"key": f"doc-damage-not-detected:{lab}:{role}:{pl}", "desc": desc,
+                                        "what": f"{role} #{ordinal} ({key}, {size}) is still well-formed {fmt.upper()} but its key path "
+                                                f"{'/'.join(map(str, op['path']))} was damaged ({lab}): the collection completed with reachable / live "
+                                                f"files missing from its keep sets, deleting {gone[:4]} ({len(gone)} reachable / live file(s) in all)"})
+            out["runs"].append(r)
+
+        if not (only is not None and only.get("type") not in (None, "doc")):
+            meta_doc = json.loads(open(os.path.join(root, cur_meta)).read())
+            # quick: every operation on the paths reachability flows through on every table; the other paths of the (same) metadata
+            # format are covered completely on the tables with 1 and 2 snapshots and by a seeded third of them on the larger ones
+            thin = (not full_ops) and (spec["snaps"] > 2 or bool(spec.get("legacy_json")))
+            for op in docdamage.json_ops(meta_doc, full_ops, rng):
+                if thin and not docdamage.is_focus(op["path"]) and rng.random() < 0.67:
+                    continue
+                doc_run(cur_meta, "json", "current-metadata", 0, op, f"{len(meta_doc.get('snapshots') or [])} snapshot(s)")
+            doc_targets = list(targets)
+            if not full_ops:
+                # quick: the newest list, the manifest with the most records, and one more of each chosen by the seed
+                by_role = {"list": [t for t in targets if t[0] == "list"], "manifest": [t for t in targets if t[0] == "manifest"]}
+                doc_targets = []
+                for role in ("list", "manifest"):
+                    ts = by_role[role]
+                    if not ts:
+                        continue
+                    sizes = {t: len(gcsim.avro_probe(open(os.path.join(root, t[2]), "rb"))["paths"]) for t in ts}
+                    first = ts[-1] if role == "list" else max(ts, key=lambda t: sizes[t])
+                    rest = [t for t in ts if t != first]
+                    doc_targets += [first] + (rng.sample(rest, 1) if rest else [])
+            for role, ordinal, key in doc_targets:
+                bs = open(os.path.join(root, key), "rb").read()
+                try:
+                    schema, recs = docdamage.avro_load(bs)
+                except Exception:  # noqa: BLE001 - a legacy JSON file
+                    jdoc = json.loads(bs.decode("utf-8"))
+                    for op in docdamage.json_ops(jdoc, full_ops, rng):
+                        doc_run(key, "json", role, ordinal, op, "legacy JSON")
+                    continue
+                for op in docdamage.avro_ops(schema, recs, full_ops, rng):
+                    if docdamage.apply_avro_op(schema, recs, op) is None:
+                        continue
+                    doc_run(key, "avro", role, ordinal, op, f"{len(recs)} record(s)")
         for r in out["runs"]:
             out["stats"]["raised" if r["real"]["raised"] else "absorbed"] += 1
             out["violations"].extend(r["violations"])
-        out["model"] = {"snaps": snaps, "store": base_store, "now_ms": int(now * 1000), "grace": grace, "tp": root}
+        entries = []
+        for key, mt in sorted(gcsim.list_tree(root).items()):
+            with open(os.path.join(root, key), "rb") as f:
+                entries.append([key, int(round(mt * 1000)), gcsim.content_term(gcsim.classify(key, f.read()))])
+        out["model"] = {"snaps": snaps, "store": base_store, "now_ms": int(now * 1000), "grace": grace, "tp": root, "entries": entries}
         out["shape"] = {"lists": [len(gcsim.avro_probe(open(os.path.join(root, k), "rb"))["paths"]) for k in list_keys],
                         "manifests": [len(gcsim.avro_probe(open(os.path.join(root, k), "rb"))["paths"]) for k in man_keys]}
     except (gcsim.CaseTimeout, MemoryError) as e:
@@ -516,10 +651,82 @@ def damaged_bytes(bs: bytes, dmg: Tuple[Any, ...]) -> bytes:
     raise ValueError(dmg)
 
 
+def schema_ext(doc: Any) -> bool:
+    """The external validation of Model/Doc.v `SExt "Schema.fields"`, measured: does Schema(...) accept every item of the
+    document's schemas section (vacuously true when the section cannot be walked: the reader refuses the document anyway)."""
+    from datashard import Schema
+    try:
+        items = [it for it in doc["schemas"] if isinstance(it, dict) and "schema_id" in it and "fields" in it]
+    except Exception:  # noqa: BLE001
+        return True
+    for it in items:
+        try:
+            Schema(schema_id=it["schema_id"], fields=it["fields"], schema_string=it.get("schema_string", ""))
+        except Exception:  # noqa: BLE001
+            return False
+    return True
+
+
+def intkey_ext(recs: List[Any]) -> bool:
+    """SExt "intkey_map": an optional statistics map is falsy, or a dict whose keys int() accepts."""
+    for r in recs:
+        d = r.get("data_file") if isinstance(r, dict) else None
+        if not isinstance(d, dict):
+            continue
+        for k in ("lower_bounds", "upper_bounds", "column_sizes", "value_counts", "null_value_counts"):
+            v = d.get(k)
+            if not v:
+                continue
+            if not isinstance(v, dict):
+                return False
+            for kk in v:
+                try:
+                    int(kk)
+                except Exception:  # noqa: BLE001
+                    return False
+    return True
+
+
+def doc_model_inputs(fmt: str, role: str, new: bytes) -> Dict[str, Any]:
+    """The damaged document as input of Model/GCDoc.v: the decoded document (json / fastavro, independent of datashard) as a
+    `jv` term, the external validations measured, and -- for the metadata file -- what the library's own decoder makes of it."""
+    import json
+    if role == "current-metadata":
+        doc = json.loads(new.decode("utf-8"))
+        from datashard.metadata_manager import MetadataManager
+        try:
+            md = MetadataManager._dict_to_metadata(MetadataManager.__new__(MetadataManager), doc)
+            real = [1, [sn.manifest_list for sn in md.snapshots]]
+        except Exception as e:  # noqa: BLE001
+            real = [0, [], type(e).__name__]
+        return {"kind": "metadata", "term": docdamage.jv(doc), "ext": schema_ext(doc), "real_decode": real}
+    if fmt == "json":
+        return {"kind": role + "-json", "term": docdamage.jv(json.loads(new.decode("utf-8"))), "ext": True}
+    _schema, recs = docdamage.avro_load(new)
+    return {"kind": role + "-avro", "term": "[" + "; ".join(docdamage.jv(r) for r in recs) + "]", "ext": intkey_ext(recs)}
+
+
+def doc_damaged_bytes(bs: bytes, dmg: Dict[str, Any]) -> bytes:
+    """Structured damage (harness/lib/docdamage.py) of a JSON document or an Avro container."""
+    import json
+    if dmg["doc"] == "json":
+        return json.dumps(docdamage.apply_json_op(json.loads(bs.decode("utf-8")), dmg), indent=2).encode("utf-8")
+    schema, recs = docdamage.avro_load(bs)
+    new = docdamage.apply_avro_op(schema, recs, dmg)
+    if new is None:
+        raise ValueError(f"no such container: {dmg}")
+    return new
+
+
 def apply_damage(root: str, key: str, dmg: Any) -> None:
     full = os.path.join(root, key)
     st = os.stat(full)
     bs = open(full, "rb").read()
+    if isinstance(dmg, dict):
+        with open(full, "wb") as f:
+            f.write(doc_damaged_bytes(bs, dmg))
+        os.utime(full, (st.st_mtime, st.st_mtime))
+        return
     if isinstance(dmg, (tuple, list)):
         with open(full, "wb") as f:
             f.write(damaged_bytes(bs, tuple(dmg)))
@@ -640,6 +847,8 @@ def make_specs(ctx) -> List[Dict[str, Any]]:
         {"snaps": 2, "rewrite": True, "expire": False, "dead_writer": "append"},
         {"snaps": 3, "rewrite": False, "expire": True, "legacy_marker": True, "multiblock": True, "dead_writer": "delete_snapshot"},
         {"snaps": 4, "rewrite": True, "expire": True, "multi_append": 2, "multiblock": True, "dead_writer": "expire"},
+        # every reachable list / manifest in the legacy JSON format (JSON fallback of the readers)
+        {"snaps": 2, "rewrite": True, "expire": False, "multi_append": 2, "legacy_json": True},
     ]
     graces = [0] if quick else [0, 3600000]
     for vi, v in enumerate(variants):
@@ -653,7 +862,10 @@ def make_specs(ctx) -> List[Dict[str, Any]]:
 EVAL_STATS = {"requested": 0, "distinct": 0}
 
 
-def eval_dedup(exprs: List[str], pre: str) -> List[Any]:
+DREQ = REQ + ["DS.Model.Doc", "DS.Gen.GenDoc", "DS.Model.GCDoc"]
+
+
+def eval_dedup(exprs: List[str], pre: str, req: Optional[List[str]] = None) -> List[Any]:
     """coq_eval, evaluating each distinct expression once (many damaged files fall into the same content class)."""
     uniq: Dict[str, int] = {}
     for e in exprs:
@@ -661,8 +873,96 @@ def eval_dedup(exprs: List[str], pre: str) -> List[Any]:
     order = sorted(uniq, key=uniq.get)
     EVAL_STATS["requested"] += len(exprs)
     EVAL_STATS["distinct"] += len(order)
-    vals = coqbuild.coq_eval(REQ, order, preamble=pre, chunk=gcsim.chunk_for(len(order)), timeout=2400) if order else []
+    vals = coqbuild.coq_eval(req or REQ, order, preamble=pre, chunk=gcsim.chunk_for(len(order)), timeout=2400) if order else []
     return [vals[uniq[e]] for e in exprs]
+
+
+DOC_CONTENT = {"list-avro": "list_records_content", "manifest-avro": "manifest_records_content",
+               "list-json": "list_json_content", "manifest-json": "manifest_json_content"}
+
+
+def doc_correspondence(ctx, recs: List[Tuple[Dict[str, Any], Dict[str, Any]]], pre: str) -> None:
+    """Structured damage through Model/GCDoc.v.  Stage A evaluates what the regenerated reader shapes make of each damaged
+    document (metadata: refused, or the manifest lists of its snapshots; list / manifest: its content class); `doc_decode`
+    compares that with the library's own decoder on the metadata documents.  Stage B runs the collector model on it
+    (collect_doc / gc_run on the store with the damaged file's content class replaced); `doc_runs` compares with the real
+    collection: refused / aborted = the real one raised having deleted nothing (same phase when it raised
+    GarbageCollectionAborted); completed = abort phase, deleted set, keep sets, call trace as for every other run."""
+    from harness.lib.coqio import to_coq
+    docruns = [(ri, run) for ri, (_spec, res) in enumerate(recs) for run in res["runs"] if run.get("doc")]
+    bad_runs: List[Dict[str, Any]] = []
+    stage_a, idx_a = [], []
+    for ri, run in docruns:
+        m = run["doc"].get("model")
+        if m is None:
+            bad_runs.append({"damage": run["what"], "diffs": ["no model input: " + str(run["doc"].get("model_error"))]})
+            continue
+        ext = f"(fun _ _ => {'true' if m['ext'] else 'false'})"
+        if m["kind"] == "metadata":
+            stage_a.append(f"render_decode {ext} {m['term']}")
+        else:
+            stage_a.append(f"content_code ({DOC_CONTENT[m['kind']]} {ext} {m['term']})")
+        idx_a.append((ri, run))
+    t_a = time.time()
+    try:
+        vals_a = eval_dedup(stage_a, "", DREQ)
+    except RuntimeError as e:
+        ctx.proof_problems.append("model evaluation failed (documents): " + str(e)[:600])
+        return
+    bad_decode: List[Dict[str, Any]] = []
+    n_decode = 0
+    stage_b, idx_b = [], []
+    for (ri, run), va in zip(idx_a, vals_a):
+        spec, res = recs[ri]
+        m, mm = run["doc"]["model"], res["model"]
+        code, strs = int(va[0]), list(va[1])
+        pspec = {k: spec[k] for k in spec if k != "base"}
+        if m["kind"] == "metadata":
+            n_decode += 1
+            real = m["real_decode"]
+            if [code, strs] != [real[0], list(real[1])]:
+                bad_decode.append({"spec": pspec, "damage": run["what"], "op": run["doc"]["op"], "library": real, "model": [code, strs]})
+            if code == 0:
+                run["doc"]["expect"] = "refused"
+                idx_b.append((ri, run, None))
+                continue
+            expr = gcsim.gc_expr(mm["tp"], mm["grace"], mm["now_ms"], TIMEOUT_MS, [], strs, f"base{ri}")
+        else:
+            avro = m["kind"].endswith("avro")
+            cterm = {0: "(CPartialAvro [] false)" if avro else "CGarbage", 1: f"(CList FAvro {to_coq(strs)})", 2: f"(CList FJson {to_coq(strs)})",
+                     3: f"(CManifest FAvro {to_coq(strs)})", 4: f"(CManifest FJson {to_coq(strs)})", 5: "CJsonEmpty"}[code]
+            store = "[" + "; ".join(f"({to_coq(k)}, mkObj ({mt})%Z {cterm if k == run['doc']['key'] else ct})" for k, mt, ct in mm["entries"]) + "]"
+            expr = gcsim.gc_expr(mm["tp"], mm["grace"], mm["now_ms"], TIMEOUT_MS, [], mm["snaps"], store)
+        stage_b.append(expr)
+        idx_b.append((ri, run, len(stage_b) - 1))
+    ctx.correspondence("doc_decode", n_decode, bad_decode)
+    t_b = time.time()
+    ctx.stats["doc_model_stage_a_s"] = round(t_b - t_a, 1)
+    try:
+        vals_b = eval_dedup(stage_b, pre, DREQ)
+        ctx.stats["doc_model_stage_b_s"] = round(time.time() - t_b, 1)
+    except RuntimeError as e:
+        ctx.proof_problems.append("model evaluation failed (documents): " + str(e)[:600])
+        return
+    for ri, run, bi in idx_b:
+        spec = recs[ri][0]
+        real = run["real"]
+        gone = {k for k in set(run["before"]) - set(run["after"]) if not k.startswith(gcsim.INFLIGHT + "/")}
+        if bi is None:
+            d = [] if real["raised"] and not gone else [f"model: the reader refuses the document (raise, nothing deleted); code: raised={real['raised']} deleted={sorted(gone)[:4]}"]
+        else:
+            model = gcsim.parse_render(vals_b[bi])
+            if model["out"] in (1, 2):
+                d = []
+                if not real["raised"] or gone:
+                    d.append(f"model: aborted in phase {model['out']} with nothing deleted; code: raised={real['raised']} ({real.get('exc_type')}) deleted={sorted(gone)[:4]}")
+                elif real.get("aborted_type_ok") and real["phase"] != model["out"]:
+                    d.append(f"abort phase: code={real['phase']} model={model['out']}")
+            else:
+                d = gcsim.compare(real, run["before"], run["after"], model)
+        if d:
+            bad_runs.append({"spec": {k: spec[k] for k in spec if k != "base"}, "damage": run["what"], "op": run["doc"]["op"], "diffs": d[:4]})
+    ctx.correspondence("doc_runs", len(docruns), bad_runs)
 
 
 def run_campaign(ctx) -> None:
@@ -728,7 +1028,9 @@ def run_campaign(ctx) -> None:
         agg["storage_calls_per_collection"].append(res["stats"]["calls"])
         agg["fault_runs"] += res["stats"]["fault_runs"]
         agg["damage_runs"] += res["stats"]["damage_runs"]
-        for k2 in ("byte_damage_runs", "stream_fault_runs", "still_parses_not_judged", "stream_faults_undetectable_short_read", "timeouts"):
+        for k2 in ("byte_damage_runs", "stream_fault_runs", "still_parses_not_judged", "stream_faults_undetectable_short_read", "timeouts",
+                   "doc_damage_runs", "doc_emptied_in_place_not_judged", "doc_emptied_in_place_deleted_reachable",
+                   "doc_legacy_json_section_lost_reads_empty_not_judged"):
             agg[k2] = agg.get(k2, 0) + res["stats"].get(k2, 0)
         agg.setdefault("records_per_list", []).append(res.get("shape", {}).get("lists"))
         agg.setdefault("records_per_manifest", []).append(res.get("shape", {}).get("manifests"))
@@ -739,6 +1041,9 @@ def run_campaign(ctx) -> None:
         pspec = {k: spec[k] for k in spec if k != "base"}
         for v in res["violations"]:
             ctx.violation(v["key"], v["what"], {"spec": pspec, "campaign": "faults", "only": v.get("desc")})
+        for run in res["runs"]:
+            if run.get("doc"):
+                ctx.count(1, ("doc", len(recs), run["what"], repr(run["doc"]["op"])))
         m = res["model"]
         stage1.append(gcsim.gc_expr(m["tp"], m["grace"], m["now_ms"], TIMEOUT_MS, [], m["snaps"], f"base{len(recs)}"))
         recs.append((spec, res))
@@ -833,6 +1138,8 @@ def run_campaign(ctx) -> None:
         if d:
             bad.append({"spec": {k: recs[ri][0][k] for k in recs[ri][0] if k != "base"}, "damage": run["what"], "file": run["damage"][0], "diffs": d[:4]})
     ctx.correspondence("gc_damage", len(druns), bad)
+    doc_correspondence(ctx, recs, pre)
+    ctx.stats["model_evaluations_distinct"] = dict(EVAL_STATS)
     if done:
         ri, run, model = done[len(done) // 2]
         ctx.sample({"fault_case": {"fault": run["what"], "plan": run["plan"], "raised": run["real"]["raised"], "exception": run["real"]["exc_type"],
@@ -844,20 +1151,26 @@ def run(ctx) -> None:
     logging.disable(logging.CRITICAL)
     ctx.rule = ("one evaluation = one real collection with one fault plan (a fault at one storage call: 4 kinds, or the stream failing "
                 "part-way; thorough: pairs) or one damaged reachable file (6 whole-file classes; single-byte flips and truncations at "
-                "many offsets), judged by the independent oracle and compared with the model; distinct by (table, fault kind, call, "
-                "file role, offset)")
+                "many offsets; one structured operation -- drop / null / retype / empty -- at one key path of the document), judged by "
+                "the independent oracle and compared with the model; distinct by (table, fault kind, call, file role, offset / "
+                "operation and key path)")
     ctx.trusted_base += [
         "translator/gen_norm.py (regenerated path kernel; try/except skeleton of collect / _load_inflight_protection / _marker_targets / _gc_prefix pinned)",
         "harness: harness/props/c07.py, harness/lib/gcsim.py (fault injection by wrapping the storage backend object; independent reader; frozen clock)",
         "fault model: FRaise = OSError/FileNotFoundError, FRaiseX = any non-OSError exception, FBad = unusable result; one fault changes one call",
+        "translator/gen_doc.py (reader shapes of _dict_to_metadata / read_manifest(_list)_file; which dataclasses validate); harness/lib/docdamage.py",
+        "external validations measured per document and passed to the model as the parameter `ext`: Schema(...) on the items of `schemas`; "
+        "the int()-keyed statistics maps of a manifest entry",
     ]
     ctx.assumptions += [
         "writer-side path forms (wf_store) -- see C05",
         "metadata_manager.refresh() is outside the collector model: faults inside it are judged by the oracle only (C10 / C14 own pointer and metadata damage)",
         "an abort raised by a sweep's own listing (failure or '../' entry) may follow deletions of true orphans: the property's second disjunct",
-        "damage that still parses as an empty JSON manifest is not judged (DESIGN.md section 7 interpretation, as for C14)",
+        "damage that still parses as an empty JSON manifest is not judged (DESIGN.md section 7 interpretation, as for C14); the same for a "
+        "legacy JSON list / manifest whose `manifests` / `files` section is dropped or replaced by an empty object / string",
+        "a value emptied in place (same type) or an Avro container with zero records is a well-formed document saying something else: not judged",
     ]
-    ctx.proofs(THEOREMS, gen_files=["GenNorm.v"])
+    ctx.proofs(THEOREMS, gen_files=["GenNorm.v", "GenDoc.v"])
     ctx.allow_axioms([])
     run_campaign(ctx)
 
